@@ -26,6 +26,10 @@
  *                            GRAMSIM_CLOCK is absent the real clock is used (never the case
  *                            under the simulator)
  *   GRAMSIM_PID=<n>          value returned by getpid()
+ *   GRAMSIM_STALL=<a,b,c,..> stall the k-th thread the process creates by that many microseconds
+ *                            before its start routine runs ("slow or stalled node"): gram itself
+ *                            creates one thread and joins it, so this changes nothing on the
+ *                            current tree, but it makes a race that a change introduces show up
  *   GRAMSIM_LOG=<path>       append one line per call: "<len> <flags> <ret>", one line
  *                            "S <heap> <mmap>" when the constructor displaced the layout, one
  *                            line "T" per simulated clock read and "P" per simulated getpid
@@ -64,6 +68,9 @@ static uint64_t clock_base = 0;
 static uint64_t clock_step = 0;
 static uint64_t clock_reads = 0;
 static long fake_pid = 0;
+static unsigned stall_us[16];
+static int stall_n = 0;
+static int threads_created = 0;
 
 static int hexval(int c) {
     if (c >= '0' && c <= '9') return c - '0';
@@ -80,6 +87,7 @@ static uint64_t splitmix(uint64_t *s) {
 }
 
 static void set_key_hex(const char *k);
+static void set_stalls(const char *list);
 
 static void init_once(void) {
     if (ready) return;
@@ -100,6 +108,7 @@ static void init_once(void) {
     }
     const char *fp = getenv("GRAMSIM_PID");
     if (fp) fake_pid = strtol(fp, NULL, 10);
+    set_stalls(getenv("GRAMSIM_STALL"));
     const char *l = getenv("GRAMSIM_LOG");
     if (l) log_fd = open(l, O_WRONLY | O_CREAT | O_APPEND | O_CLOEXEC, 0644);
 }
@@ -125,6 +134,17 @@ static void set_key_hex(const char *k) {
     }
     tail_state = 0x6772616d73696dULL;
     for (size_t i = 0; i < key_len; i++) tail_state = tail_state * 0x100000001B3ULL + key_bytes[i];
+}
+
+static void set_stalls(const char *list) {
+    stall_n = 0;
+    threads_created = 0;
+    while (list && *list && stall_n < 16) {
+        char *end = NULL;
+        stall_us[stall_n++] = (unsigned)strtoul(list, &end, 10);
+        if (!end || *end != ',') break;
+        list = end + 1;
+    }
 }
 
 /* Displace the heap and the mmap area by the amounts the plan chose, and say so in the log. */
@@ -184,6 +204,7 @@ static void forkserver(char **argv) {
     static char line[1 << 16];
     char out_path[4096] = "", err_path[4096] = "", log_path[4096] = "", cwd[4096] = "";
     char key_hex[600] = "";
+    char stall_list[256] = "";
     size_t heap = 0, map = 0;
     long p_eintr = 0, p_noinsecure = 0, p_chunk = 0, p_pid = 0;
     unsigned long long p_clock = 0, p_step = 0;
@@ -210,6 +231,7 @@ static void forkserver(char **argv) {
             have_clock = 1;
         }
         else if (!strncmp(line, "PID ", 4)) p_pid = strtol(line + 4, NULL, 10);
+        else if (!strncmp(line, "STALL ", 6)) { strncpy(stall_list, line + 6, sizeof stall_list - 1); }
         else if (!strncmp(line, "LOG ", 4)) strncpy(log_path, line + 4, sizeof log_path - 1);
         else if (!strncmp(line, "OUT ", 4)) strncpy(out_path, line + 4, sizeof out_path - 1);
         else if (!strncmp(line, "ERR ", 4)) strncpy(err_path, line + 4, sizeof err_path - 1);
@@ -241,6 +263,7 @@ static void forkserver(char **argv) {
                 eintr_left = p_eintr; no_insecure = (int)p_noinsecure; chunk = (size_t)p_chunk;
                 clock_owned = have_clock; clock_base = p_clock; clock_step = p_step; clock_reads = 0;
                 fake_pid = p_pid;
+                set_stalls(stall_list);
                 log_fd = log_path[0] ? open(log_path, O_WRONLY | O_CREAT | O_APPEND | O_CLOEXEC, 0644) : -1;
                 displace(heap, map);
                 return; /* on to the executable's initialisers and main */
@@ -262,7 +285,7 @@ static void forkserver(char **argv) {
             for (int i = 1; i < 16; i++) { free(arg_val[i]); arg_val[i] = NULL; }
             n_env_set = n_env_unset = 0;
             heap = map = 0; p_eintr = p_noinsecure = p_chunk = p_pid = 0; have_clock = 0;
-            out_path[0] = err_path[0] = log_path[0] = cwd[0] = key_hex[0] = 0;
+            out_path[0] = err_path[0] = log_path[0] = cwd[0] = key_hex[0] = stall_list[0] = 0;
         }
     }
 }
@@ -375,4 +398,41 @@ pid_t getpid(void) {
     }
     log_mark("P\n");
     return (pid_t)fake_pid;
+}
+
+/* Thread-start stalls: the k-th pthread_create of the process gets a start routine that first
+   sleeps for the plan's k-th delay. */
+#include <pthread.h>
+
+struct stalled_start {
+    void *(*start)(void *);
+    void *arg;
+    unsigned us;
+};
+
+static void *stalled_trampoline(void *p) {
+    struct stalled_start s = *(struct stalled_start *)p;
+    free(p);
+    struct timespec ts = { s.us / 1000000, (long)(s.us % 1000000) * 1000L };
+    while (nanosleep(&ts, &ts) != 0 && errno == EINTR) {}
+    return s.start(s.arg);
+}
+
+int pthread_create(pthread_t *thread, const pthread_attr_t *attr, void *(*start)(void *), void *arg) {
+    static int (*real)(pthread_t *, const pthread_attr_t *, void *(*)(void *), void *) = NULL;
+    if (!real) real = (int (*)(pthread_t *, const pthread_attr_t *, void *(*)(void *), void *))dlsym(RTLD_NEXT, "pthread_create");
+    if (!real) return EAGAIN;
+    init_once();
+    int k = __atomic_fetch_add(&threads_created, 1, __ATOMIC_SEQ_CST);
+    if (k < stall_n && stall_us[k] > 0) {
+        struct stalled_start *s = malloc(sizeof *s);
+        if (s) {
+            s->start = start; s->arg = arg; s->us = stall_us[k];
+            char line[64];
+            int n = snprintf(line, sizeof line, "Z %d %u\n", k, stall_us[k]);
+            if (n > 0) log_mark(line);
+            return real(thread, attr, stalled_trampoline, s);
+        }
+    }
+    return real(thread, attr, start, arg);
 }
